@@ -918,6 +918,7 @@ func c17AmbiguousTags(p *core.Program, r *core.Report) {
 
 func c17Controls() []core.Mutant {
 	return []core.Mutant{
+		{Name: "refactor: existence test restated by De Morgan", File: "conf/config.go", Old: "if !ok || fnType.Type == nil || fnType.Type.Kind() != reflect.Func {", New: "if !(ok && fnType.Type != nil && fnType.Type.Kind() == reflect.Func) {", Silent: true},
 		{Name: "patcher skips operands without static type", File: "compiler/patcher.go", Old: "\trightType := binaryNode.Right.Type()\n", New: "\trightType := binaryNode.Right.Type()\n\tif leftType == nil || rightType == nil {\n\t\treturn\n\t}\n", Rule: "R17.1", Construct: "no further guard"},
 		{Name: "resolver accepts every assignable operand", File: "conf/operators_table.go", Old: "firstArgumentFit := l == firstArgType || (", New: "firstArgumentFit := (l != nil && l.AssignableTo(firstArgType)) || (", Rule: "R17.1", Construct: "operand fits only its own type"},
 		{Name: "ambiguous tag keeps its type", File: "conf/types_table.go", Old: "\t\t\t\t\t\ttypes[name] = Tag{Ambiguous: true}", New: "\t\t\t\t\t\tprev := types[name]\n\t\t\t\t\t\tprev.Ambiguous = true\n\t\t\t\t\t\ttypes[name] = prev", Rule: "R17.3", Construct: "ambiguous tag"},
